@@ -195,6 +195,8 @@ def run_case(case):
                 break
             hs = [h for h in hooks_by_authz.get(ch['authz'], []) if h['kv'].get('challenge') == ch['type']]
             a = authz.get(ch['authz'], {})
+            if a.get('status') not in (None, 'pending'):
+                pb.append(('hook-for-non-pending', 'the daemon answered a challenge of the authorization of %s, which the CA served as %s' % (ch['identifier'], a['status'])))
             cfg_name = ('*.' + ch['identifier']) if ch.get('wildcard') else ch['identifier']
             want_type = cfg_by_norm.get(nk(a.get('identifier_type', 'dns'), cfg_name))
             if want_type and ch['type'] != want_type:
@@ -299,6 +301,24 @@ def gen(tier, r):
             case['key_change'] = [t for t in ('ecdsa_p384', 'ed25519', 'ecdsa_p256', 'rsa2048') if t != case['acc_key']][i % 3]
         case['odd_case'] = (i % 5 == 2)
         cases.append(case)
+    # orders that mix re-used (already valid) and pending authorizations in every relative position, in the order of the
+    # configuration (no shuffling): no hook and no "ready" for the valid ones, wherever they stand in the list
+    pats = ['PV', 'VP', 'VPV', 'PVP', 'PPV', 'VVP', 'VV', 'PVVP']
+    if tier != 'quick':
+        pats += [''.join(p) for n_ in (3, 4, 5) for p in __import__('itertools').product('PV', repeat=n_)]
+    for j, pat in enumerate(pats):
+        i = n + j
+        idents = []
+        st = {}
+        for k, c_ in enumerate(pat):
+            name = 'v%d.y%d.example.org' % (k, i)
+            ch = chal[(k + j) % 3]
+            idents.append(({'dns': name, 'challenge': ch}, ('dns', name), ch))
+            if c_ == 'V':
+                st[name] = 'valid'
+        cases.append({'i': i, 'identifiers': idents, 'acc_key': C.KEY_TYPES[j % 7] if C.KEY_TYPES[j % 7] != 'rsa4096' else 'ecdsa_p256',
+                      'shuffle_seed': 0, 'token_len': 43, 'polls': j % 2 * 2, 'status_by_id': st, 'mixed_hook': False, 'odd_case': False,
+                      'valid_pattern': pat})
     return cases
 
 
